@@ -220,10 +220,17 @@ def deconv2d_cases(draw, tier="quick"):
     c = {"dim": dim, "PSF": psf, "PSF_param": draw(st.sampled_from([0.7, 1.0, 1.5, 2.0, 2.56])), "PSF_size": size,
          "BC": draw(st.sampled_from(["zero", "periodic", "Neumann", "Mirror", "Nearest"])),
          "noise_type": draw(st.sampled_from(["gaussian", "scaledGaussian"])), "noise_std": draw(st.sampled_from([0.0036, 0.3])),
-         "phantom": draw(gen.mat(dim, dim, 0.1, 2)), "e": draw(gen.vec(dim * dim, -2, 2)), "x": draw(gen.vec(dim * dim, -2, 2))}
+         "phantom": draw(gen.mat(dim, dim, 0.1, 2)), "e": draw(gen.vec(dim * dim, -2, 2)), "x": draw(gen.vec(dim * dim, -2, 2)),
+         # a named phantom of the library's collection instead of an array (some of them are generated from their own seeded stream)
+         # ('threephases' draws from the caller's global stream by design and is not used; 'p_power' returns a size-1 image for odd
+         # sizes, which makes the constructor fail - a crash, not a silent error - so it is asked for even sizes only)
+         "phantom_name": draw(st.sampled_from([None, None, "p_power", "grains", "shepp_logan", "satellite"])),
+         "gseed": draw(st.integers(0, 10 ** 6))}
     if psf == "array":
         c["PSF_array"] = draw(gen.mat(size, size, 0.0, 1.0))
         c["PSF_array"][0][0] += 0.5
+    if c["phantom_name"] == "p_power" and dim % 2 == 1:
+        c["phantom_name"] = "grains"
     return c
 
 
@@ -236,9 +243,24 @@ def run_deconv2d(c, rec):
         return
     PSF = A(c["PSF_array"]) if c["PSF"] == "array" else c["PSF"]
     e = A(c["e"])
-    with scripted_noise_ctx(e):
-        refused, tp = refuses(lambda: cuqi.testproblem.Deconvolution2D(dim=dim, PSF=PSF, PSF_param=c["PSF_param"], PSF_size=c["PSF_size"], BC=c["BC"],
-                                                                       phantom=A(c["phantom"]), noise_type=c["noise_type"], noise_std=c["noise_std"]))
+    pname = c.get("phantom_name")
+    ph_ref = None
+    if pname:
+        # the phantom by itself (its documented generator), drawn while the caller's global stream is in another state
+        np.random.seed(987)
+        ph_ref = np.asarray(getattr(cuqi.data, pname)(size=dim), dtype=float)
+    np.random.seed(c.get("gseed", 0))
+    state_before = np.random.get_state()[1].copy()
+    try:
+        with scripted_noise_ctx(e):
+            refused, tp = refuses(lambda: cuqi.testproblem.Deconvolution2D(dim=dim, PSF=PSF, PSF_param=c["PSF_param"], PSF_size=c["PSF_size"], BC=c["BC"],
+                                                                           phantom=(pname if pname else A(c["phantom"])), noise_type=c["noise_type"],
+                                                                           noise_std=c["noise_std"]))
+        # (the noise went through the scripted stream: the caller's real global stream must be where it was)
+        require(np.array_equal(np.random.get_state()[1], state_before), "constructing Deconvolution2D re-seeded or advanced the caller's global random "
+                "stream by something other than its noise draws", phantom=str(pname))
+    finally:
+        np.random.seed()
     if refused:
         require(c["noise_type"] != "gaussian", f"constructing Deconvolution2D failed: {tp}")
         rec.count("construction_refused_zero_variance")
@@ -264,7 +286,10 @@ def run_deconv2d(c, rec):
             got=np.asarray(tp.model.forward(x)), want=want)
     check_components(tp, rec, "Deconvolution2D")
     xe = np.asarray(tp.exactSolution, dtype=float)
-    require(maxdiff(xe, A(c["phantom"]).ravel()) <= 1e-12, "exactSolution is not the phantom that was passed")
+    if pname:
+        require(xe.shape == (dim * dim,) and maxdiff(xe, ph_ref.ravel()) <= 1e-12, f"exactSolution is not the '{pname}' phantom of the library's collection")
+    else:
+        require(maxdiff(xe, A(c["phantom"]).ravel()) <= 1e-12, "exactSolution is not the phantom that was passed")
     ye = conv2_direct(xe.reshape(dim, dim), P, bc).ravel()
     require(close(tp.exactData, ye, 1e-9), "exactData is not the documented operator applied to the exact solution")
     sig = c["noise_std"] if c["noise_type"] == "gaussian" else np.abs(ye) * c["noise_std"]
@@ -490,7 +515,7 @@ def run_misc(c, rec):
 SUBCHECKS = [
     SubCheck("C17/deconv1d", run_deconv1d, strategy=deconv1d_cases, n={"quick": 500, "thorough": 10000}, shards={"quick": 4, "thorough": 16}),
     SubCheck("C17/deconv1d_legacy", run_legacy, strategy=legacy_cases, n={"quick": 100, "thorough": 1500}, shards={"quick": 2, "thorough": 4}),
-    SubCheck("C17/deconv2d", run_deconv2d, strategy=deconv2d_cases, n={"quick": 200, "thorough": 4000}, shards={"quick": 8, "thorough": 16}),
+    SubCheck("C17/deconv2d", run_deconv2d, strategy=deconv2d_cases, n={"quick": 600, "thorough": 4000}, shards={"quick": 8, "thorough": 16}),
     SubCheck("C17/pde_problems", run_pde, strategy=pde_cases, n={"quick": 800, "thorough": 12000}, shards={"quick": 8, "thorough": 16}),
     SubCheck("C17/abel_wang", run_misc, strategy=misc_cases, n={"quick": 200, "thorough": 3000}, shards={"quick": 2, "thorough": 8}),
 ]
